@@ -292,15 +292,46 @@ def _leaf_ok(segs, args):
         return False
     return _args_ok(args)
 
+def split_components(segs):
+    """the segments of a sub-tree name as the Coq side structures them: every literal
+    cut behind each of its '/' ("a#3/b#2/c/" = a #3 / b #2 / c/)"""
+    out = []
+    for k, v in segs:
+        if k == 'E':
+            out.append((k, v))
+            continue
+        cur = b""
+        for c in v:
+            cur += bytes([c])
+            if c == 47:
+                out.append(('L', cur)); cur = b""
+        if cur:
+            out.append(('L', cur))
+    return out
+
+def _comps_ok(segs):
+    """one or more components "text/" or "text#N/" (NamesModel.comps_okb)"""
+    i = 0
+    while i < len(segs):
+        k, t = segs[i]
+        if k != 'L':
+            return False
+        if i + 1 < len(segs) and segs[i + 1][0] == 'E':
+            if not (i + 2 < len(segs) and segs[i + 2] == ('L', b"/")):
+                return False
+            if not (_text_ok(t) and 0 <= segs[i + 1][1] < 10**9):
+                return False
+            i += 3
+        else:
+            if not (t.endswith(b"/") and _text_ok(t[:-1])):
+                return False
+            i += 1
+    return True
+
 def _sub_ok(segs, args):
-    if args != b"":
+    if args != b"" or not segs:
         return False
-    if len(segs) == 1 and segs[0][0] == 'L':
-        t = segs[0][1]
-        return t.endswith(b"/") and _text_ok(t[:-1])
-    if len(segs) == 3 and segs[0][0] == 'L' and segs[1][0] == 'E' and segs[2] == ('L', b"/"):
-        return _text_ok(segs[0][1]) and 0 <= segs[1][1] < 10**9
-    return False
+    return _comps_ok(split_components(segs))
 
 def _key(segs):
     return b"".join(v if k == 'L' else b"#" for k, v in segs)
